@@ -209,3 +209,26 @@ package writer
 //@     assert [overlap] overlapsTR(timeRange, usi.tsRange)
 //@     assert [requested-index] exists(j, 0, len(indexNames), indexNames[j] == usi.TableName)
 //@ end
+
+// ---- constant record size of a column (C01/C03: the reader seeks by it) ---------
+// The size recorded for a column is a real size only while every record seen
+// so far had exactly that size and the column existed from the first record.
+//@ func (*SegStore).updateColValueSizeInAllSeenColumns
+//@   props C01
+//@   requires ss != nil && ss.AllSeenColumnSizes != nil
+//@   ensures [first-sighting] implies(!old(haskey(ss.AllSeenColumnSizes, colName)), ss.AllSeenColumnSizes[colName] == ite(ss.RecordCount > 0, uint32(sutils.INCONSISTENT_CVAL_SIZE), size))
+//@   ensures [sticky-inconsistent] implies(old(haskey(ss.AllSeenColumnSizes, colName)) && old(ss.AllSeenColumnSizes[colName]) == sutils.INCONSISTENT_CVAL_SIZE, ss.AllSeenColumnSizes[colName] == sutils.INCONSISTENT_CVAL_SIZE)
+//@   ensures [same-size-kept] implies(old(haskey(ss.AllSeenColumnSizes, colName)) && old(ss.AllSeenColumnSizes[colName]) == size, ss.AllSeenColumnSizes[colName] == size)
+//@   ensures [different-size-inconsistent] implies(old(haskey(ss.AllSeenColumnSizes, colName)) && old(ss.AllSeenColumnSizes[colName]) != size, ss.AllSeenColumnSizes[colName] == sutils.INCONSISTENT_CVAL_SIZE)
+//@   ensures [present] haskey(ss.AllSeenColumnSizes, colName)
+//@   safe
+//@ end
+
+// A column whose records are rewritten at flush time must not keep a constant
+// record size (fix "a column rewritten by consolidateColumnTypes ...").
+//@ func consolidateColumnTypes
+//@   props C01 C03
+//@   requires wipBlock != nil && allSeenColumnSizes != nil
+//@   site call convertColumnToNumbers #1:
+//@     assert [rewritten-column-marked-inconsistent] allSeenColumnSizes[colName] == sutils.INCONSISTENT_CVAL_SIZE
+//@ end
